@@ -440,8 +440,8 @@ class Prop:
             "quick, 6 thorough) x 8 labeling patterns (distinct strings; strings JSON must escape; unhashable dicts/dataclasses under explicit ids; clones in different parents; explicit/falsy/default-valued ids; "
             "value-equal objects, tuples, ints, dataclasses; identity-hashed objects; '7' next to 7) x the 7 serialisation mappers (none / "
             "set data in place / wrap / new dict keeping or dropping data_id / extra entry popped by the decoder / data_id moved to "
-            "another key and restored into item['data_id'] by the deserialize mapper) with the inverse deserialisation mapper (at N nodes: 1 (quick) or 2 "
-            "of the 7 mappers per tree); trees under a calc_data_id hook; typed trees; emptied trees (clear, remove of the last top "
+            "another key and restored into item['data_id'] by the deserialize mapper) with the inverse deserialisation mapper (quick: all 7 up to 3 nodes, 3 of 7 at 4 "
+            "nodes, 1 of 7 at 5 nodes; thorough: all up to 5 nodes, 2 of 7 at 6 nodes); trees under a calc_data_id hook; typed trees; emptied trees (clear, remove of the last top "
             "node); trees reached through mutation histories (remove, remove(keep_children), remove_children, move_to, filter, add, "
             "clear + re-add: every single operation on every node of every forest <= 3 nodes, pairs on 4 nodes, random histories); seeded random trees (5..18 nodes quick, 5..30 thorough); 47 hand-written + 150 (thorough 800) random dict lists (missing/unhashable data, bad data_id / node_id / children entries, non-dict items); Node.from_dict "
             "into every node of every forest <= 3 (thorough 4) nodes x 3 calc_data_id hooks x 6 item lists.  Every dump goes through "
@@ -518,8 +518,10 @@ class Prop:
             for si, shape in enumerate(H.forests(n)):
                 for pi, (univ, labeler) in enumerate(pats):
                     nodes = B.shape_to_nodes(shape, labeler)
-                    if n <= (4 if tier == "quick" else 5):
+                    if n <= (3 if tier == "quick" else 5):
                         kinds = SM_KINDS
+                    elif tier == "quick" and n == 4:
+                        kinds = [SM_KINDS[(pi + si + j) % 7] for j in (0, 2, 5)]
                     elif tier == "quick":
                         kinds = [SM_KINDS[(pi + si) % 7]]
                     else:
